@@ -93,15 +93,20 @@ class CollectionFlow(Engine):
         return [(ro, st), (exc, s_fail)]
 
     # -- rules
+    def _in_coll_merge(self, st) -> bool:
+        """in MosCollection.merge or in a method it calls (the loop body extracted into a helper)"""
+        return any(f.func is not None and f.func.short == 'MosCollection.merge' for f in st.frames) \
+            and not any(f.func is not None and f.func.name in ('__add__',) for f in st.frames)
+
     def on_caught(self, stmt, handler, exc, st):
-        if st.frame.func is not None and st.frame.func.short == 'MosCollection.merge':
+        if self._in_coll_merge(st):
             st.mon['pending'] = (st.mon.get('pending') or 0) + 1
             st.mon['caught'] = exc.cls
             st.mon['iter_applied'] = True        # the message was handed over and refused (e.g. by the completion guard)
 
     def on_raise(self, stmt, exc, st):
         # the only exceptions merge() may let out are those of the step itself (re-raised unchanged)
-        if st.frame.func is not None and st.frame.func.short == 'MosCollection.merge' and stmt.exc is not None:
+        if self._in_coll_merge(st) and stmt.exc is not None:
             self.find_('STRICT-RERAISE', st, stmt, norm(stmt),
                        'merge() raises an exception of its own: the error that propagates is not the one of the failing message, '
                        'and the running order does not hold the result of the earlier messages')
